@@ -52,8 +52,11 @@ StackVerdict(r) ==
 \* round shapes: entity e has flags <<in_core, in_shell, touches_outer, coherent>>; coherent: the operation addressed at
 \* a grid location is made of the faces of THAT location at both of its ends (always TRUE for the faces of a sketch)
 RoundVerdict(r) ==
-    { c \in {"not-a-partition", "core-touches-outer", "shell-inside", "ends-from-different-locations"} :
-        CASE c = "not-a-partition" -> \E e \in Range(r.entities) : e[1] = e[2]
+    \* (a sketch of three rings - core, round ring, outer ring - has entities that are neither core nor shell: those of the
+    \*  middle ring, which do not reach the outer surface)
+    { c \in {"not-a-partition", "core-touches-outer", "shell-inside", "outer-not-in-shell", "ends-from-different-locations"} :
+        CASE c = "not-a-partition" -> \E e \in Range(r.entities) : (e[1] /\ e[2]) \/ (~e[1] /\ ~e[2] /\ (r.rings # 3 \/ e[3]))
+          [] c = "outer-not-in-shell" -> \E e \in Range(r.entities) : e[3] /\ ~e[2]
           [] c = "core-touches-outer" -> \E e \in Range(r.entities) : e[1] /\ e[3]
           [] c = "shell-inside" -> \E e \in Range(r.entities) : e[2] /\ ~e[3]
           [] c = "ends-from-different-locations" -> \E e \in Range(r.entities) : ~e[4] }
